@@ -30,6 +30,8 @@ EPS = 1e-5
 @st.composite
 def _case(draw, tier):
     spec, combo = draw(solve.spec_and_combo())
+    if spec["noise_type"] == "diagonal":
+        spec = dict(spec, g_alias=draw(st.sampled_from([False, False, False, False, True])))   # g returns its input tensor
     tset = draw(solve.time_setup(max_steps=10 if tier == "quick" else 24))
     adaptive = draw(st.sampled_from([False, False, True]))
     return {"spec": spec, "combo": combo, "time": tset, "adaptive": adaptive,
@@ -49,7 +51,12 @@ def _case(draw, tier):
             "logqp": draw(st.sampled_from([False, False, False, True])),
             # the drift and diffusion also depend on a tensor that is neither y0 nor a registered parameter (a context
             # written into the module by an encoder): with "only_external" every parameter is frozen and y0 is fixed
-            "external": draw(st.sampled_from([None, None, None, "with_params", "only_external"]))}
+            "external": draw(st.sampled_from([None, None, None, "with_params", "only_external"])),
+            # the same SDE object was first solved with gradients disabled (a validation pass before the training step)
+            "prior_eval": draw(st.sampled_from([False, False, True])),
+            # the solve is done in two legs, the second continued from the state and extra solver state the first returned
+            # (extra=True / extra_solver_state): the derivative of the whole is still that of the numerical solution
+            "two_legs": draw(st.sampled_from([False, False, True]))}
 
 
 def strategy(tier):
@@ -75,7 +82,8 @@ def enumerate_cases(tier):
                    "wseed": rnd.randrange(2 ** 31), "tol": 1e-2, "y0_grad": y0_grad,
                    "frozen": [None, "drift", "diffusion"][(idx + (0 if y0_grad else 1)) % 3],
                    "g_zero_at_y0": combo["noise_type"] != "additive" and idx % 2 == 0 and y0_grad,
-                   "logqp": idx % 3 == 1 and y0_grad, "external": "only_external" if (idx % 4 == 2 and not y0_grad) else None}
+                   "logqp": idx % 3 == 1 and y0_grad, "external": "only_external" if (idx % 4 == 2 and not y0_grad) else None,
+                   "prior_eval": idx % 2 == 1, "two_legs": combo["method"] == "reversible_heun" or idx % 5 == 0}
 
 
 class _IllConditioned(Exception):
@@ -136,6 +144,7 @@ def run_case(case):
     # finite difference of an ill-conditioned function is no oracle)
     logqp = bool(case.get("logqp")) and spec["noise_type"] != "diagonal" and combo["method"] != "reversible_heun" \
         and not case["adaptive"] and not gz
+    two_legs = bool(case.get("two_legs")) and not logqp and len(ts) >= 3
     if ext == "only_external":
         y0_grad = False
         dir_y = dir_y * 0.0
@@ -188,10 +197,23 @@ def run_case(case):
                 record.append(out)
             return out
 
+        if case.get("prior_eval") and need_grad:
+            with torch.no_grad():
+                torchsde.sdeint(sde, y0.detach(), ts, method=combo["method"], dt=tm["dt"], options=dict(combo["options"]) or None,
+                                bm=sdes.make_bm(torchsde, spec, ts[0], ts[-1], case["entropy"] + 1, levy=combo["levy"]),
+                                logqp=logqp, **kw)
         ctx = torch.enable_grad() if need_grad else torch.no_grad()
         with brownian_tools.patched(adaptive_stepping, "compute_error", ce), ctx:
-            ys = torchsde.sdeint(sde, y0, ts, bm=bm, method=combo["method"], dt=tm["dt"],
-                                 options=dict(combo["options"]) or None, logqp=logqp, **kw)
+            if two_legs:
+                k = len(ts) // 2
+                ys1, ex = torchsde.sdeint(sde, y0, ts[:k + 1], bm=bm, method=combo["method"], dt=tm["dt"],
+                                          options=dict(combo["options"]) or None, extra=True, **kw)
+                ys2, _ = torchsde.sdeint(sde, ys1[-1], ts[k:], bm=bm, method=combo["method"], dt=tm["dt"],
+                                         options=dict(combo["options"]) or None, extra=True, extra_solver_state=ex, **kw)
+                ys = torch.cat([ys1, ys2[1:]], dim=0)
+            else:
+                ys = torchsde.sdeint(sde, y0, ts, bm=bm, method=combo["method"], dt=tm["dt"],
+                                     options=dict(combo["options"]) or None, logqp=logqp, **kw)
             lq = None
             if logqp:
                 ys, lq = ys
@@ -242,7 +264,9 @@ def run_case(case):
     steps = (tm["t1"] - tm["t0"]) / tm["dt"]
     labels = [solve.combo_label(combo), "adaptive" if case["adaptive"] else "fixed",
               "y0_requires_grad" if y0_grad else "y0_fixed"] + ([f"frozen={frozen_kind}"] if frozen_kind else []) + \
-        (["g_vanishes_at_y0"] if gz else []) + (["logqp"] if logqp else []) + ([f"external_context:{ext}"] if ext else [])
+        (["g_vanishes_at_y0"] if gz else []) + (["logqp"] if logqp else []) + ([f"external_context:{ext}"] if ext else []) + \
+        (["same_sde_first_solved_under_no_grad"] if case.get("prior_eval") else []) + \
+        (["continued_from_returned_extra_state"] if two_legs else [])
     if case["adaptive"]:
         labels.append(f"trials={'>=10' if len(record) >= 10 else '<10'}")
     fail = None
